@@ -143,12 +143,20 @@ def shift_x(spec, rng):
     return spec
 
 
+def n_points(rng, fam, nmax):
+    """number of data points: non-linear families get >= 2 npar + 2 points so that the fits compared after do_fit are well posed"""
+    k = len(Model(fam).pnames)
+    if Model(fam).linear:
+        return int(rng.integers(k + 2, max(nmax, k + 3) + 1))
+    return int(rng.integers(2 * k + 2, 2 * k + 6))
+
+
 def base_spec(rng, tier, ftype, mixed_y=False, mixed_x=False, family=None, cost="chi2"):
     nmax = 9 if tier == "quick" else 20
     if ftype in ("xy", "indexed"):
         fams = ["poly1", "poly2", "trig", "expbasis", "poly1", "gausspeak"] if not mixed_x else ["poly1", "poly2", "trig"]
         fam = family or str(rng.choice(fams))
-        n = int(rng.integers(len(Model(fam).pnames) + 2, nmax + 1))
+        n = n_points(rng, fam, nmax)
         spec = (gen.gen_xy_spec if ftype == "xy" else gen.gen_indexed_spec)(rng, family=fam, n=n, cost=cost)
         if mixed_x and ftype == "xy":
             # data regenerated from the model at the shifted x so that the problem stays a sensible fit
@@ -1308,7 +1316,7 @@ def gen_model_form(rng, tier, variant, sub):
             ftype, data = "indexed", {"data": spec["data"]}
         else:
             fam = str(rng.choice(["poly1", "poly2", "trig", "exponential", "gausspeak", "lorentz", "sinusoid", "logistic", "expbasis", "powerlaw"]))
-            spec = gen.gen_xy_spec(rng, family=fam, n=int(rng.integers(len(Model(fam).pnames) + 2, nmax + 1)))
+            spec = gen.gen_xy_spec(rng, family=fam, n=n_points(rng, fam, nmax))
             if fam in SHIFTABLE and rng.random() < 0.4:
                 shift_y(spec, rng)  # negative defaults
             ftype, data = "xy", {"x": spec["x"], "y": spec["y"]}
